@@ -216,7 +216,7 @@ def meta(tier):
     return {
         'rule': 'one-slot: every ordered pair of variants whose single slot is any subset of size <=2 (thorough 3) of the 13 alternative '
                 'kinds (at most one numeric-like kind per set) x all 18 operand texts x mnemonic case; two-slot: variants over a '
-                'reduced subset list, with and without an explicitly listed combination and a disallowed pair (also both at once, for the same pair of operand ids), x pairs of 8 texts; '
+                'reduced subset list, with and without an explicitly listed combination and a disallowed pair (also both at once, for the same pair of operand ids), x pairs of 8 texts; excluded combinations of one and of three operands; '
                 'three variants over a reduced list; numeric-enumeration sets: a numeric enumeration (by code / by argument) next to two registers in 3 definition orders x 6 texts (a register name is a register, not the expression of the enumeration); renaming differential: 11 operand sets (also ones with two alternatives of the same kind) x all texts, '
                 'operand ids spelled in alphabetical and in reverse alphabetical order, same encoding required; expected = opcode of the first accepting variant + code of the chosen '
                 'alternative (+ argument), or rejection; non-trivial = statement that more than one variant or more than one '
@@ -258,7 +258,7 @@ def run_group(acc, group, texts_list, upper=False):
     singles = []
     for mn, variants in group:
         for texts in texts_list:
-            cats = [TEXTS[t] for t in texts]
+            cats = [TEXTS[t] if t else ('nothing', None, None) for t in texts]        # '': an empty operand slot (stray comma), accepted by nothing
             mtext = mn.upper() if upper and (hash((mn, texts)) % 3 == 0) else mn
             stmt = f'{mtext} ' + ', '.join(texts)
             fields, got = reference(variants, cats, 0)
@@ -355,6 +355,45 @@ def shard(acc, tier, idx, n):
             c2 = [(nm, 12 + x) for x, nm in enumerate(subs[j])]
             group.append((f't{k}', [{'opcode': 0xC1, 'sets': [c1]}, {'opcode': 0xC2, 'sets': [c2]}]))
         run_group(acc, group, one_texts, upper=True)
+    # ---- an empty operand slot (a stray comma) is an operand nothing accepts: it is not dropped to make the statement fit a shorter form ----
+    ctr += 1
+    if ctr % n == idx:
+        group = []
+        for k, (s1, s2) in enumerate(itertools.product(['reg_a', 'numeric', 'enum_foo', 'ind_num'], repeat=2)):
+            two = {'opcode': 0xC9, 'sets': [[(s1, 9)], [(s2, 10)]]}
+            group.append((f'h{k}', [{'opcode': 0xCA, 'sets': [[(s1, 9)]]}, two]))            # a one-operand form next to the two-operand form
+            group.append((f'i{k}', [two, {'opcode': 0xCB, 'sets': [[(s2, 11)]]}]))
+        stray = [(x, '') for x in ('a', '5', 'foo', '[5]')] + [('', x) for x in ('a', '5', 'foo', '[5]')] + [('a', '', '5'), ('', '')]
+        run_group(acc, group, stray)
+    # ---- an excluded combination of one operand, and of three: a variant that excludes the text leaves it to the next variant ------
+    singles2 = [s_ for s_ in subs if len(s_) <= 2]
+    for g0 in range(0, len(singles2), G):
+        ctr += 1
+        if ctr % n != idx:
+            continue
+        group = []
+        k = 0
+        for sub in singles2[g0:g0 + G]:
+            c1 = [(nm, 9 + x) for x, nm in enumerate(sub)]
+            for banned in sub:
+                v1 = {'opcode': 0xC5, 'sets': [c1], 'disallowed': [banned + '0']}
+                group.append((f'd{k}', [v1]))
+                group.append((f'e{k}', [v1, {'opcode': 0xC6, 'sets': [[(banned, 12)]]}]))
+                k += 1
+        run_group(acc, group, one_texts)
+    three_sets = [[('reg_a', 9), ('reg_b', 10)], [('numeric', 11), ('reg_a', 12)], [('reg_b', 13), ('ind_num', 14)]]
+    three_texts = list(itertools.product(('a', 'b', '5'), ('5', 'a', 'lbl'), ('b', '[5]', '5')))
+    bans = list(itertools.product(('reg_a0', 'reg_b0'), ('numeric1', 'reg_a1'), ('reg_b2', 'ind_num2')))
+    for g0 in range(0, len(bans), G):
+        ctr += 1
+        if ctr % n != idx:
+            continue
+        group = []
+        for k, ban in enumerate(bans[g0:g0 + G]):
+            v1 = {'opcode': 0xC7, 'sets': three_sets, 'disallowed': list(ban)}
+            group.append((f'f{k}', [v1]))
+            group.append((f'g{k}', [v1, {'opcode': 0xC8, 'sets': three_sets}]))
+        run_group(acc, group, three_texts)
     # ---- two slots: sets / specific / disallowed ---------------------------------------------------------------
     red = [('reg_a',), ('reg_a', 'reg_b'), ('numeric',), ('reg_a', 'numeric'), ('enum_foo', 'numeric'), ('ind_num', 'ind_reg_a'),
            ('idx_reg_a', 'reg_a'), ('numbc', 'reg_b'), ('numeric_va',)]
